@@ -84,6 +84,48 @@ def agent_collect_step(n: int, r0: bool, r1: bool, r2: bool, v0: int, v1: int, v
     return hx.end(True)
 
 
+def composite_shared(incl: bool, has: bool, v0: int, v1: int, v2: int) -> bool:
+    """
+    post: _
+    """
+    # the composite function returns the SAME dict object every time and keeps updating it (running totals): records
+    # already appended never change
+    hx.begin()
+    m = M()
+    a = Agent("a0", m)
+    m.environment.add_agent(a)
+    totals = {}
+    vals = [v0, v1, v2]
+    step = [0]
+
+    def comp(agents):
+        totals["total"] = vals[step[0]]
+        return totals
+    c = Col.AgentCollector(m, (lambda ag: 1) if has else (lambda ag: None), comp, includeTimstep=incl)
+    m.systems.add_system(c)
+    expected = []
+    for k in range(3):
+        step[0] = k
+        m.execute()
+        rec = {}
+        if incl:
+            rec["timestep"] = k
+        if has:
+            rec["a0"] = 1
+        rec["total"] = vals[k]
+        expected.append(rec)
+        if len(c.records) != k + 1:
+            return hx.end(hx.fail("number of records", got=len(c.records), exp=k + 1))
+        for i in range(k + 1):
+            if c.records[i] != expected[i]:
+                return hx.end(hx.fail("an earlier record was altered by a later collection", index=i, got=c.records[i],
+                                      exp=expected[i], after_step=k))
+    if not incl and not has:
+        hx.reach('record_is_only_composite')
+    hx.reach('done')
+    return hx.end(True)
+
+
 class Churn(System):
     """priority-0 system that changes the population according to a plan {timestep offset: (+1 | -1)}"""
 
@@ -194,6 +236,51 @@ def file_conservation(wc: int, c0: int, c1: int, c2: int, c3: int, c4: int, c5: 
         del Col.open
 
 
+def file_open_fails(wc: int, fail_at: int, c0: int, c1: int, c2: int, c3: int) -> bool:
+    """
+    pre: 0 <= wc <= 2
+    pre: 0 <= fail_at < 4
+    pre: 0 <= c0 <= 1 and 0 <= c1 <= 1 and 0 <= c2 <= 1 and 0 <= c3 <= 1
+    post: _
+    """
+    # fault injection: opening the file fails (OSError) at the fail_at-th due flush; the run continues.  Nothing may be
+    # lost or duplicated: written ++ held == collected after every step, whatever happens to the error
+    hx.begin()
+    fs = FakeFS()
+    opens = [0]
+
+    def flaky_open(name, mode='r', *a, **k):
+        opens[0] += 1
+        if opens[0] - 1 == fail_at:
+            raise OSError("disk not ready")
+        return fs.open(name, mode, *a, **k)
+    Col.open = flaky_open
+    try:
+        m = M()
+        m.per = [c0, c1, c2, c3, 1, 1]
+        m.all = []
+        m.systems.timestep = 0
+        fc = FC("f", m, "out.txt", write_count=wc)
+        m.systems.add_system(fc)
+        failed = False
+        for step in range(6):
+            m.k = step
+            try:
+                m.execute()
+            except OSError:
+                failed = True
+                hx.reach('open_failed')
+                # the error reached the caller inside execute(): the timestep did not complete; advance the clock by hand
+                m.systems.timestep = step + 1
+            written = fs.files.get("out.txt", [])
+            if written + fc.records != m.all:
+                return hx.end(hx.fail("records lost or duplicated around a failed open()", step=step, written=written,
+                                      held=fc.records, collected=m.all, write_count=wc, failed_open_number=fail_at))
+        return hx.end(True)
+    finally:
+        del Col.open
+
+
 def file_window(wc: int, start: int, t0: int) -> bool:
     """
     pre: 0 <= wc <= 2
@@ -252,6 +339,11 @@ def obligations(tier):
     return [
         X("agent_collect_step", agent_collect_step, labels=("empty_record_skipped", "record_appended", "partial"), timeout=1200,
           encoded=(Col.AgentCollector.collect, Col.Collector.execute, Col.AgentCollector.__init__)),
+        X("composite_shared", composite_shared, labels=("record_is_only_composite", "done"), timeout=600,
+          encoded=(Col.AgentCollector.collect,)),
+        X("file_open_fails", file_open_fails, labels=("open_failed",), timeout=900,
+          encoded=(Col.FileCollector.execute, Col.FileCollector.write_records),
+          bounds={"write_count": "0..2", "steps": 6, "failing open": "any of the first four"}),
         X("agent_collect_window", agent_collect_window,
           parts=[{"f": f, "steps": s} for f, s in (((1, 3), (2, 3)) if tier == "quick" else ((1, 3), (2, 3), (2, 4), (3, 4)))],
           labels=("some_scheduled",), timeout=1200, encoded=(Col.AgentCollector.collect, Col.Collector.__init__)),
